@@ -18,6 +18,8 @@ spec <ns> <words…>            a written selector (`Sel` of Model/SelSpec.lean)
 ```
 text <ns> <words…>            the same written selector at text level: `plainChain raw`, `Sel.text`, the tokens the
                               tokenizer model (Model/Tok.lean) returns for that text, and the selector model on them
+attach <ns> <sheetns> <tokens>  a selector parsed with <ns> and then attached to a sheet whose namespaces (the
+                              sheet's effective prefix -> URI view) are <sheetns>: its text there (`serItems sheetns seq`)
 seltext <ns> <hex>            any text: tokenizer model, then the selector model (`parseSel ns (tokensOf text)`)
 `<ns>` = `-` or `p=u&p=u` (hex strings), `<tokens>` = `-` or `typ/val,typ/val` (hex strings). -/
 
@@ -317,6 +319,12 @@ def handle (line : String) : String :=
   | "text" :: ns :: ws => (match decNs ns with
       | some ns => doText ns ws
       | none => "bad-op")
+  | ["attach", ns, sns, toks] => (match decNs ns, decNs sns, decToks toks with
+      | some ns, some sns, some toks => (match parseSel ns toks with
+          | .ok (some r) => s!"ATT {r.b} {r.c} {r.d} T={encCps (serItems sns r.seq)}"
+          | .ok none => "REJECT"
+          | .error e => showErr e)
+      | _, _, _ => "bad-op")
   | ["seltext", ns, t] => (match decNs ns, decCps t with
       | some ns, some t =>
         let toks := tokensOf t
